@@ -29,7 +29,7 @@ ASSUMPTIONS = [
     "str subclasses and objects with exotic __eq__ are not driven (statement silent)",
 ]
 REQUIRED = {"all": ["accepted_valid", "accepted_with_whitespace", "accepted_lowercase", "rejected_invalid",
-                    "rejected_invalid_with_whitespace", "rejected_blank", "rejected_non_string", "battery_compared", "lookalike_code_points"]}
+                    "rejected_invalid_with_whitespace", "rejected_blank", "rejected_non_string", "battery_compared", "lookalike_code_points", "words_wrapped_in_a_pair_of_foreign_characters"]}
 NVALID = {"quick": 1500, "thorough": 15000}
 NBASE = {"quick": 2, "thorough": 6}
 SPACES = [chr(i) for i in list(range(0, 0x3100)) if chr(i).isspace()]
@@ -158,6 +158,13 @@ def cases(tier, seed):
         for s in (">" + base + "\n" + base, ">sp|P1|X\n" + base, " >hdr\n" + base + "\n", ">\n" + base, ">" + base + "\r\n" + base + "\n",
                   base + "\n>" + base, base + "*", base + "\n*", "1 " + base, base + " 10", ";" + base + "\n" + base):
             yield {"s": s}
+    # a valid word wrapped in a PAIR of foreign characters (quoted / bracketed text pasted from a table, a JSON file, a shell):
+    # one foreign character at each end is still foreign
+    for base in bases + ["a", "NAN", "GS"]:
+        for lq, rq in [('"', '"'), ("'", "'"), ("`", "`"), ("(", ")"), ("[", "]"), ("{", "}"), ("<", ">"), ("\u201c", "\u201d"), ("\u00ab", "\u00bb"),
+                       ('"', "'"), ("*", "*"), ("-", "-"), (".", "."), ("|", "|"), ("b'", "'"), ("'", "',"), ("['", "']")]:
+            for s in (lq + base + rq, " " + lq + base + rq + "\n", lq + base.lower() + rq, lq + " " + base + " " + rq):
+                yield {"s": s, "wrapped": 1}
     for i in range(NVALID[tier]):
         w = gen.rand_seq(rng, hi=120 if i % 6 == 0 else 30)
         chars = []
@@ -254,6 +261,8 @@ def judge(case, rep, S):
     valid = len(n) > 0 and all(c in M.AA for c in n)
     if case.get("lookalike"):
         rep.cnt("lookalike_code_points")
+    if case.get("wrapped"):
+        rep.cnt("words_wrapped_in_a_pair_of_foreign_characters")
     has_ws = any(c.isspace() for c in s)
     try:
         obj = SP(s) if len(s) % 2 else SP(sequence=s)
